@@ -151,6 +151,7 @@ def h_eps(cx, name, nidx, lo, hi):
     args = [a.arg for a in f.args.args]
     vs = [i.t for i in idx]
     tr = ast2smt.T(dict(zip(args, vs)))
+    tr.helpers = ast2smt.module_helpers(D)
     raises, returns = ast2smt.exec_straight(tr, ast2smt.strip_doc(f.body))
     cx.expect(len(returns) == 1, 'one-return')
     guard, ret = returns[0]
